@@ -110,8 +110,27 @@ def make_beta(cfg, total_stacked):
     if cfg.get("beta_form", "scalar") == "vector":
         if cfg.get("beta_vector_seed") is not None:
             rng = np.random.default_rng(cfg["beta_vector_seed"])
-            return np.round(rng.uniform(0, 2, size=total_stacked) * float(v), 3)
-        return np.full(total_stacked, float(v))
+            vec = np.round(rng.uniform(0, 2, size=total_stacked) * float(v), 3)
+        else:
+            vec = np.full(total_stacked, float(v))
+        # exact zeros (free transitions) at named places: the ends of the chain are where a per-segment treatment goes wrong
+        for where in cfg.get("beta_zero_at", ()):
+            if where == "first":
+                idx = [0]
+            elif where == "second":
+                idx = [1]
+            elif where == "second_to_last":
+                idx = [total_stacked - 2]
+            elif where == "last":
+                idx = [total_stacked - 1]
+            elif where == "pair_in_the_middle":
+                idx = [total_stacked // 2, total_stacked // 2 + 1]
+            else:       # "scattered"
+                idx = list(range(3, total_stacked, 7))
+            for i in idx:
+                if 0 <= i < total_stacked:
+                    vec[i] = 0.0
+        return vec
     return float(v)
 
 
